@@ -175,6 +175,9 @@ func genC07(t *rapid.T) *Scenario {
 func genC12(t *rapid.T) *Scenario {
 	sc := &Scenario{Prop: "C12", Stage: "join"}
 	k := rapid.SampledFrom([]int{0, 1, 2, 2, 3, 3, 4, 4, 5, 9, 12}).Draw(t, "k")
+	if rapid.IntRange(0, 14).Draw(t, "manyInputs") == 0 {
+		k = rapid.SampledFrom([]int{17, 20, 33, 40, 70}).Draw(t, "kBig") // more inputs than processors
+	}
 	for i := 0; i < k; i++ {
 		n := rapid.IntRange(0, 6).Draw(t, "len")
 		in := make([]int, n)
@@ -307,7 +310,7 @@ func genC06(t *rapid.T) *Scenario {
 	sc.Twin = rapid.IntRange(0, 5).Draw(t, "twin") == 0
 	if sc.Stage == "join" && nIn >= 2 && rapid.IntRange(0, 2).Draw(t, "lastSlot") == 0 {
 		// several copiers reach for the last free slot of the output at the same instant, then nobody receives and the context is cancelled
-		sc.PreCancel, sc.NoFinish, sc.Repeat, sc.Prefill = false, true, 6, 0
+		sc.PreCancel, sc.NoFinish, sc.Repeat, sc.Prefill = false, true, 20, 0
 		for i := range sc.In {
 			sc.Caps[i] = 0
 			sc.In[i] = []int{i * 1000, i*1000 + 1, i*1000 + 2, i*1000 + 3}
@@ -332,7 +335,7 @@ func genC08(t *rapid.T) *Scenario {
 	if rapid.IntRange(0, 9).Draw(t, "bigcap") == 0 {
 		sc.Caps[0] = rapid.SampledFrom([]int{8, 16, 64, 250}).Draw(t, "capBig")
 	}
-	sc.Mode = rapid.SampledFrom([]string{"cancel", "cancel", "close"}).Draw(t, "end")
+	sc.Mode = rapid.SampledFrom([]string{"cancel", "cancel", "close", "close-cancel"}).Draw(t, "end")
 	n := rapid.IntRange(0, 40).Draw(t, "scriptLen")
 	kinds := []string{"send", "send", "send", "send", "burst", "burst", "burst", "recv", "recv", "recv", "recv", "drain", "drain", "batch", "batch"}
 	for j := 0; j < n; j++ {
@@ -361,9 +364,19 @@ func genC08(t *rapid.T) *Scenario {
 	}
 	sc.PreCancel = rapid.IntRange(0, 19).Draw(t, "precancel") == 0
 	sc.Gated = rapid.IntRange(0, 3).Draw(t, "warm") == 0 // a pipe of another element type ran before (shared state between instantiations)
-	sc.Twin = rapid.IntRange(0, 4).Draw(t, "twin") == 0 // a second pipe of the same element type is alive alongside
+	sc.Twin = rapid.IntRange(0, 4).Draw(t, "twin") == 0  // a second pipe of the same element type is alive alongside
 	// how the stream ends: by class
-	switch rapid.SampledFrom([]string{"harness", "harness", "cancel-with-backlog", "racing-sends", "racing-sends", "parked-senders", "parked-senders", "close-with-backlog"}).Draw(t, "endclass") {
+	switch rapid.SampledFrom([]string{"harness", "harness", "cancel-with-backlog", "racing-sends", "racing-sends", "parked-senders", "parked-senders", "close-with-backlog", "close-then-cancel", "buffered-close-racing-cancel"}).Draw(t, "endclass") {
+	case "close-then-cancel":
+		// the sender closes with a backlog, the pump has seen the close, only then the context is cancelled: everything is still delivered
+		sc.Script = append(sc.Script, Move{K: "burst", M: rapid.IntRange(1, 6).Draw(t, "backlog")}, Move{K: "close"}, Move{K: "cancel"})
+		if rapid.Bool().Draw(t, "partlyDrained") {
+			sc.Script = append(sc.Script, Move{K: "recv"})
+		}
+	case "buffered-close-racing-cancel":
+		// values sit in the send buffer of a closed send side when the cancel arrives (no quiescence in between)
+		sc.Script = append(sc.Script, Move{K: "drain"}, Move{K: "batch", Sub: []Move{{K: "dclose", M: rapid.IntRange(1, 4).Draw(t, "direct")}, {K: "cancel"}}})
+		sc.Repeat = 6
 	case "parked-senders":
 		// several independent senders race the cancel: the send buffer is full and more senders are parked on it
 		sc.Script = append(sc.Script, Move{K: "batch", Sub: []Move{{K: "burst", M: rapid.IntRange(0, 3).Draw(t, "chain")}, {K: "par", M: rapid.IntRange(2, 8).Draw(t, "parked")}, {K: "cancel"}}})
@@ -422,6 +435,7 @@ func genC11(t *rapid.T) *Scenario {
 		sc.T.CancelAt = rapid.IntRange(1, 30).Draw(t, "cancelAt")
 		sc.T.StopAtCancel = rapid.Bool().Draw(t, "stopAtCancel")
 	}
+	sc.PreCancel = rapid.IntRange(0, 15).Draw(t, "precancel") == 0
 	sc.Twin = rapid.IntRange(0, 5).Draw(t, "twin") == 0 // an independent second instance on the same virtual clock
 	return sc
 }
@@ -463,6 +477,7 @@ func genC13(t *rapid.T) *Scenario {
 	if rapid.IntRange(0, 5).Draw(t, "cancelMid") == 0 {
 		sc.T.CancelAt = rapid.IntRange(1, 40).Draw(t, "cancelAt")
 	}
+	sc.PreCancel = rapid.IntRange(0, 19).Draw(t, "precancel") == 0
 	sc.Twin = rapid.IntRange(0, 5).Draw(t, "twin") == 0 // an independent second instance on the same virtual clock
 	return sc
 }
@@ -539,14 +554,22 @@ func genC09(t *rapid.T) *Scenario {
 	case "simultaneous-release":
 		// all workers busy, the output buffer one short of full, then every in-flight call returns at once; nobody receives
 		sc.Script = []Move{{K: "burst", M: 16}}
-		for k := 0; k < rapid.IntRange(0, sc.Par).Draw(t, "prefillOut"); k++ {
+		fill := rapid.IntRange(0, sc.Par).Draw(t, "prefillOut")
+		if rapid.Bool().Draw(t, "oneSlotLeft") {
+			fill = sc.Par - 1 // the output buffer (capacity = workers) has exactly one free slot when the calls return
+		}
+		for k := 0; k < fill; k++ {
 			sc.Script = append(sc.Script, Move{K: "release", I: rapid.IntRange(0, 5).Draw(t, "which")})
 		}
-		var all []Move
-		for k := 0; k < sc.Par; k++ {
-			all = append(all, Move{K: "release", I: 0})
+		if rapid.Bool().Draw(t, "oneWakeUp") {
+			sc.Script = append(sc.Script, Move{K: "barrier"})
+		} else {
+			var all []Move
+			for k := 0; k < sc.Par; k++ {
+				all = append(all, Move{K: "release", I: 0})
+			}
+			sc.Script = append(sc.Script, Move{K: "batch", Sub: all})
 		}
-		sc.Script = append(sc.Script, Move{K: "batch", Sub: all})
 		if rapid.Bool().Draw(t, "thenCancel") {
 			sc.Script = append(sc.Script, Move{K: "cancel"})
 		}
